@@ -1,7 +1,7 @@
 #!/usr/bin/env python3
 """Regenerates MANIFEST.json (kept as a script so that the manifest stays consistent)."""
 import json
-hooks=["09edb0e","a04e5eb","f254399","bbd02c1","a0d1070"]
+hooks=["09edb0e","a04e5eb","f254399","bbd02c1","a0d1070","92a1c3d"]
 NOTE="Trusted: the cfg(mini_moka_verif) hooks in /repo (mock clock, read-only snapshot/walker/estimate accessors, component facades, switch points), the reference model and oracles in /verif/harness/src, proptest 1.11. Exploration only: nothing is claimed about inputs, histories or schedules that were not generated."
 props={
  "C01":(["seq"],"reference-model PBT (proptest), safety direction","Every lookup result of generated histories on both caches is compared with a reference model: it must be nothing or the most recent, non-invalidated insert of that key. Held on all generated histories, incl. lookups while the key's own operations were still queued."),
